@@ -22,6 +22,7 @@ THEOREMS = [
     "Gwcs.Units.quantity_any_unit",
     "Gwcs.Units.quantity_any_unit_usesQ",
     "Gwcs.Units.bare_equals_frame_units",
+    "Gwcs.Units.mixed_world_values",
     "Gwcs.Units.wrong_pixel_unit_rejected",
     "Gwcs.Units.right_pixel_unit_stripped",
     "Gwcs.Units.wrong_pixel_dim_rejected",
@@ -60,6 +61,8 @@ def _out_frame(case):
         return cf.SpectralFrame(unit=u.Unit(ax[0]["world"]), name="world")
     if fam == "temporal":
         return cf.TemporalFrame(REF, unit=u.Unit(ax[0]["world"]), name="world")
+    if fam == "generic":
+        return cf.CoordinateFrame(1, ("SPATIAL",), (0,), unit=(u.Unit(ax[0]["world"]),), name="world", axes_names=("g",))
     sky = cf.CelestialFrame(reference_frame=SKY[case["sky"]], unit=(u.Unit(ax[0]["world"]), u.Unit(ax[1]["world"])), name="sky", axes_order=(0, 1))
     if fam in ("sky", "tan"):
         return sky
@@ -91,6 +94,14 @@ def _build(case, with_units):
             k = float(UNITS[ax["tout"]][1] / UNITS[ax["world"]][1])
             s = models.Multiply(ax["a"] * k) | models.Shift(ax["b"] * k)
         t = s if t is None else t & s
+    if with_units and case.get("mixed"):
+        # a user-supplied inverse WITHOUT units (numbers in frame units -> pixels) on the unit-carrying forward transform
+        inv = None
+        for ax in case["axes"]:
+            k = float(UNITS[ax["tout"]][1] / UNITS[ax["world"]][1])
+            s = models.Shift(-ax["b"] * k) | models.Multiply(1.0 / (ax["a"] * k))
+            inv = s if inv is None else inv & s
+        t.inverse = inv
     return gw.WCS([(det, t), (_out_frame(case), None)])
 
 
@@ -170,6 +181,8 @@ def impl(case):
                     o.append(coord.SpectralCoord(altq[2]))
             elif case["family"] == "spectral":
                 o.append(coord.SpectralCoord(altq[0]))
+            elif case["family"] == "generic":
+                o.append(altq[0])
             else:
                 o.append(REF + altq[0])
             return o
@@ -280,6 +293,8 @@ def request(case, res):
         walt = [["q", C.q2w(w * UNITS[ax["world"]][1] / UNITS[ax["alt"]][1]), _wu(ax["alt"])] for w, ax in zip(wf, case["axes"])]
         bad = _wu(case["bad_pix_unit"])
         base = {"usesQ": not twin, "axes": axes}
+        if case.get("mixed") and not twin:
+            base["bwd_plain"] = [[a["a"], a["b"]] for a in _model_axes(case, True)]
         reqs.append(dict(base, tag=nm + ":p2wv", op="p2wv", args=[C.q2w(p) for p in pix]))
         reqs.append(dict(base, tag=nm + ":w2pv", op="w2pv", args=[C.q2w(w) for w in wf]))
         reqs.append(dict(base, tag=nm + ":inv_alt", op="invert", args=walt))
@@ -322,7 +337,7 @@ def compare(case, res, resp):
             return "model values interface returned a quantity"
         if op == "inv_alt":
             # invert on the unit-carrying WCS returns pixel quantities, on the twin bare numbers
-            want_q = nm == "q"
+            want_q = nm == "q" and not case.get("mixed")
             if ("Quantity" in r["kinds"]) != want_q or any((uu is not None) != want_q for _, uu in mv):
                 return "invert on the %s WCS: implementation returns %s, model %s" % (nm, r["kinds"], ["qty" if uu else "bare" for _, uu in mv])
     return None
@@ -334,6 +349,8 @@ def nontrivial(case, res):
 
 def stats(case, res, st):
     st["family_" + case["family"]] += 1
+    if case.get("mixed"):
+        st["mixed_user_inverse"] += 1
     st["array" if case["array"] else "scalar"] += 1
     for a in case["axes"]:
         st["tout_" + a["tout"]] += 1
@@ -370,10 +387,12 @@ def _axis(rng, dim, kind):
 def gen(rng, tier):
     q = tier == "quick"
     for _ in range(60 if q else 1500):
-        fam = rng.choice(["spectral", "spectral", "temporal", "sky", "sky", "cube", "cube", "tan"])
+        fam = rng.choice(["spectral", "spectral", "temporal", "generic", "sky", "sky", "cube", "cube", "tan"])
         case = {"family": fam, "array": rng.random() < 0.35, "bad_pix_unit": rng.choice(["m", "deg", "arcsec", "s", "um"])}
         if fam == "spectral":
             case["axes"] = [_axis(rng, rng.choice([2, 3]), "x")]
+        elif fam == "generic":
+            case["axes"] = [_axis(rng, 2, "x")]
         elif fam == "temporal":
             case["axes"] = [_axis(rng, 4, "x")]
         elif fam in ("sky", "cube"):
@@ -390,6 +409,8 @@ def gen(rng, tier):
         if fam in ("sky", "cube", "tan"):
             case["sky"] = rng.choice(["icrs", "fk5", "galactic"])
             case["obj_sky"] = rng.choice(["icrs", "fk5", "galactic", "fk4", "fk5_1975"])
+        if fam in ("spectral", "temporal", "generic") and rng.random() < 0.3:
+            case["mixed"] = True
         npt = 3 if case["array"] else 1
         case["pix"] = [[rng.randint(0, 255) / 4.0 + 0.125 for _i in range(npt)] for _a in case["axes"]]
         yield case
